@@ -561,8 +561,7 @@ theorem sign_sign_sound (a : Expr) : Sound S env (.un .sign (.un .sign a)) (.un 
   cases w <;> simp only [EV.sign]
   · norm_num
   · rename_i x
-    split_ifs <;> simp_all
-    · norm_num
+    split_ifs <;> simp_all <;> linarith
   · norm_num
 
 theorem rUpcast_sound (H : Hyp S env cfg) {x e' : Expr} (h : rUpcast cfg x = .ok (some e')) :
@@ -570,9 +569,9 @@ theorem rUpcast_sound (H : Hyp S env cfg) {x e' : Expr} (h : rUpcast cfg x = .ok
   unfold rUpcast at h
   split at h
   · rename_i a
-    split_ifs at h with hud
-    · simp at h
-    · simp only [pure_eq_ok, Option.some.injEq] at h; subst h
+    by_cases hud : cfg.strictUD = true
+    · simp [hud] at h
+    · simp only [hud, Bool.false_eq_true, if_false, pure_eq_ok, Option.some.injEq] at h; subst h
       intro v hv
       obtain ⟨u, hu, hv⟩ := eval_un hv
       obtain ⟨w, hw, hu'⟩ := eval_un hu
@@ -643,5 +642,1159 @@ theorem rLog1p_sound (H : Hyp S env cfg) {x e' : Expr} (h : rLog1p cfg x = .ok (
       rw [hu]; simpa using hv
     · simp at h
   · simp at h
+
+/-! ## constants -/
+
+theorem pnum_ext {v : CVal} {a : PNum} (h : v.pnum? = some a) : v.ext? = some a.ext ∧ v.isReal = true := by
+  cases v <;> simp [CVal.pnum?] at h <;> subst h <;> simp [CVal.ext?, PNum.ext, CVal.isReal]
+
+theorem const_pnum {v : CVal} {a : PNum} (h : v.pnum? = some a) : S.const v = S.ofExt a.ext := by
+  obtain ⟨h1, h2⟩ := pnum_ext h
+  exact const_of_ext h2 h1
+
+theorem toCVal_ext (p : PNum) : p.toCVal.ext? = some p.ext ∧ p.toCVal.isReal = true := by
+  cases p <;> simp [PNum.toCVal, mkFlt, CVal.ext?, PNum.ext, CVal.isReal]
+
+theorem const_toCVal (p : PNum) : S.const p.toCVal = S.ofExt p.ext :=
+  const_of_ext (toCVal_ext p).2 (toCVal_ext p).1
+
+theorem const_real_eq {v w : CVal} (hv : v.isReal = true) (hw : w.isReal = true) (h : w.ext? = v.ext?) :
+    S.const w = S.const v := by
+  obtain ⟨x, hx⟩ := isReal_ext hv
+  rw [const_of_ext hv hx, const_of_ext hw (h.trans hx)]
+
+theorem guardExact_ok (hs : cfg.strict = true) {w : String} {r : ExtQ} {q : Option Rat} {u : Unit}
+    (h : guardExact cfg w r q = .ok u) : ∃ q', q = some q' ∧ r = .fin q' := by
+  unfold guardExact at h
+  simp only [hs, if_true] at h
+  cases q with
+  | none => simp at h
+  | some q' =>
+    refine ⟨q', rfl, ?_⟩
+    by_cases hr : (r == ExtQ.fin q') = true
+    · simpa using hr
+    · simp [hr] at h
+
+theorem guardRep_ok {v : CVal} {u : Unit} (h : guardRep cfg v = .ok u) : repGuard cfg v = true := by
+  unfold guardRep at h
+  by_cases hr : repGuard cfg v = true
+  · exact hr
+  · simp [hr] at h
+
+/-- value of a representable numeric constant -/
+theorem const_rep_val (H : Hyp S env cfg) {v : CVal} {q : Rat} {a : EV K} (hg : repGuard cfg v = true)
+    (hreal : v.isReal = true) (hx : v.ext? = some (.fin q)) (ha : S.const v = some a) :
+    a = .fin (q : K) ∧ S.ok (q : K) = true := by
+  rw [const_of_ext hreal hx] at ha
+  simp only [Sem.ofExt] at ha
+  obtain ⟨hok, rfl⟩ := arith_eq_some ha
+  rw [H.rep v q hg hx]
+  exact ⟨rfl, hok⟩
+
+def AOp.kind : AOp → K2
+  | .add => .add | .sub => .subtract | .mul => .multiply
+def AOp.onK (op : AOp) (a b : K) : K :=
+  match op with
+  | .add => a + b | .sub => a - b | .mul => a * b
+
+theorem bin_aop (op : AOp) (a b : K) : S.bin op.kind (.fin a) (.fin b) = S.arith (op.onK a b) := by
+  cases op <;> rfl
+
+theorem cast_onRat (op : AOp) (p q : Rat) : ((op.onRat p q : Rat) : K) = op.onK (p : K) (q : K) := by
+  cases op <;> simp [AOp.onRat, AOp.onK]
+
+theorem foldArith_sound (H : Hyp S env cfg) {op : AOp} {x y e' : Expr} (h : foldArith cfg op x y = .ok (some e')) :
+    Sound S env (.bin op.kind x y) e' := by
+  unfold foldArith at h
+  split at h
+  · rename_i xv xl yv yl
+    split_ifs at h with hn
+    · split at h
+      · rename_i a b ha hb
+        simp only [bind_eq_ok, pure_eq_ok, Option.some.injEq] at h
+        obtain ⟨r, hr, u1, h1, u2, h2, u3, h3, u4, h4, e2, he2, rfl⟩ := h
+        obtain ⟨q', hq, hrq⟩ := guardExact_ok H.strict h4
+        intro v hv
+        obtain ⟨va, vb, hva, hvb, hv⟩ := eval_bin hv
+        simp only [eval] at hva hvb
+        -- operands are finite rationals
+        cases hpa : a.ext <;> cases hpb : b.ext <;> simp only [hpa, hpb] at hq <;> try (cases hq)
+        rename_i p1 p2
+        obtain ⟨rfl, _⟩ := const_rep_val H (guardRep_ok h2) (pnum_ext ha).2 ((pnum_ext ha).1.trans (by rw [hpa])) hva
+        obtain ⟨rfl, _⟩ := const_rep_val H (guardRep_ok h3) (pnum_ext hb).2 ((pnum_ext hb).1.trans (by rw [hpb])) hvb
+        rw [bin_aop] at hv
+        rw [eval_mkConst H.strict he2, const_toCVal, hrq]
+        simp only [Sem.ofExt, cast_onRat]
+        exact hv
+      · simp at h
+    · simp at h
+  · simp at h
+
+theorem extK_lt {x y : ExtQ} {a b : EV K} (hx : extK x = some a) (hy : extK y = some b) :
+    ExtQ.lt x y = true ↔ EV.lt a b := by
+  cases x <;> cases y <;> simp only [extK, Option.some.injEq] at hx hy <;> (try cases hx) <;> (try cases hy) <;>
+    (try subst hx) <;> (try subst hy) <;> simp [ExtQ.lt, EV.lt]
+
+theorem extK_le {x y : ExtQ} {a b : EV K} (hx : extK x = some a) (hy : extK y = some b) :
+    ExtQ.le x y = true ↔ EV.le a b := by
+  cases x <;> cases y <;> simp only [extK, Option.some.injEq] at hx hy <;> (try cases hx) <;> (try cases hy) <;>
+    (try subst hx) <;> (try subst hy) <;> simp [ExtQ.le, EV.le, EV.lt]
+
+theorem extK_eq {x y : ExtQ} {a b : EV K} (hx : extK x = some a) (hy : extK y = some b) :
+    ExtQ.eq x y = true ↔ a = b := by
+  cases x <;> cases y <;> simp only [extK, Option.some.injEq] at hx hy <;> (try cases hx) <;> (try cases hy) <;>
+    (try subst hx) <;> (try subst hy) <;> simp [ExtQ.eq]
+
+theorem extK_rel (r : Rel) {x y : ExtQ} {a b : EV K} (hx : extK x = some a) (hy : extK y = some b) :
+    r.onExt x y = r.holds a b := by
+  cases r <;> simp only [Rel.onExt, Rel.holds]
+  · rw [Bool.eq_iff_iff, extK_le hy hx]; simp
+  · rw [Bool.eq_iff_iff, extK_lt hy hx]; simp
+  · rw [Bool.eq_iff_iff, extK_le hx hy]; simp
+  · rw [Bool.eq_iff_iff, extK_lt hx hy]; simp
+  · rw [Bool.eq_iff_iff, extK_eq hx hy]; simp
+  · have := extK_eq hx hy
+    by_cases h : a = b <;> simp_all
+
+/-- value of a representable numeric constant, as an embedded extended rational -/
+theorem const_extK (H : Hyp S env cfg) {v : CVal} {p : PNum} {a : EV K} (hp : v.pnum? = some p)
+    (hg : repGuard cfg v = true) (ha : S.const v = some a) : extK p.ext = some a := by
+  rw [const_pnum hp] at ha
+  cases hx : p.ext <;> simp only [hx, Sem.ofExt] at ha ⊢
+  · cases ha
+  · cases ha; rfl
+  · rename_i q
+    obtain ⟨_, rfl⟩ := arith_eq_some ha
+    rw [H.rep v q hg ((pnum_ext hp).1.trans (by rw [hx]))]
+    rfl
+  · cases ha; rfl
+
+/-- the constant chosen by Python's `min`/`max`: `b` when `c`, else `a` -/
+theorem pick_const {xv yv : CVal} {a b r : PNum} {va vb : EV K} {c : Bool}
+    (hr : r = if c = true then b else a) (hva : S.const xv = some va) (hvb : S.const yv = some vb)
+    (hab : b = a → va = vb) :
+    S.const (if (r == a) = true then xv else yv) = some (if c = true then vb else va) := by
+  cases c
+  · simp only [Bool.false_eq_true, if_false] at hr ⊢
+    subst hr
+    simp only [beq_self_eq_true, if_true]; exact hva
+  · simp only [if_true] at hr ⊢
+    subst hr
+    by_cases h : (r == a) = true
+    · have : r = a := by simpa using h
+      rw [if_pos h, hva, hab this]
+    · rw [if_neg h]; exact hvb
+
+theorem foldMinMax_sound (H : Hyp S env cfg) {isMin : Bool} {x y e' : Expr}
+    (h : foldMinMax cfg isMin x y = .ok (some e')) :
+    Sound S env (.bin (if isMin then .minimum else .maximum) x y) e' := by
+  cases isMin
+  ·
+    unfold foldMinMax at h
+    simp only [Bool.false_eq_true, if_false, if_true] at h ⊢
+    split at h
+    · rename_i xv xl yv yl
+      by_cases hn : (xv.isNumber && yv.isNumber) = true
+      · rw [if_pos hn] at h
+        split at h
+        · rename_i a b ha hb
+          simp only [bind_eq_ok, pure_eq_ok, Option.some.injEq] at h
+          obtain ⟨r, hr, u1, h1, u2, h2, u3, h3, u4, h4, u5, h5, e2, he2, rfl⟩ := h
+          have h4 := failIf_ok h4
+          simp only [H.strict, Bool.true_and, bne_eq_false_iff_eq] at h4
+          intro v hv
+          obtain ⟨va, vb, hva, hvb, hv⟩ := eval_bin hv
+          simp only [eval] at hva hvb
+          have ea := const_extK H ha (guardRep_ok h2) hva
+          have eb := const_extK H hb (guardRep_ok h3) hvb
+          have hab : b = a → va = vb := by
+            intro e; subst e; rw [ea] at eb; exact Option.some.inj eb
+          rw [eval_mkConst H.strict he2]
+          simp only [Sem.bin, Option.some.injEq] at hv
+          subst hv
+          rw [pick_const h4 hva hvb hab]
+          have hgt : Rel.gt.onExt b.ext a.ext = Rel.gt.holds vb va := extK_rel .gt eb ea
+          rw [hgt]
+          simp only [Rel.holds, decide_eq_true_eq, EV.max]
+        · simp at h
+      · rw [if_neg hn] at h; simp at h
+    · simp at h
+  ·
+    unfold foldMinMax at h
+    simp only [Bool.false_eq_true, if_false, if_true] at h ⊢
+    split at h
+    · rename_i xv xl yv yl
+      by_cases hn : (xv.isNumber && yv.isNumber) = true
+      · rw [if_pos hn] at h
+        split at h
+        · rename_i a b ha hb
+          simp only [bind_eq_ok, pure_eq_ok, Option.some.injEq] at h
+          obtain ⟨r, hr, u1, h1, u2, h2, u3, h3, u4, h4, u5, h5, e2, he2, rfl⟩ := h
+          have h4 := failIf_ok h4
+          simp only [H.strict, Bool.true_and, bne_eq_false_iff_eq] at h4
+          intro v hv
+          obtain ⟨va, vb, hva, hvb, hv⟩ := eval_bin hv
+          simp only [eval] at hva hvb
+          have ea := const_extK H ha (guardRep_ok h2) hva
+          have eb := const_extK H hb (guardRep_ok h3) hvb
+          have hab : b = a → va = vb := by
+            intro e; subst e; rw [ea] at eb; exact Option.some.inj eb
+          rw [eval_mkConst H.strict he2]
+          simp only [Sem.bin, Option.some.injEq] at hv
+          subst hv
+          rw [pick_const h4 hva hvb hab]
+          have hgt : Rel.lt.onExt b.ext a.ext = Rel.lt.holds vb va := extK_rel .lt eb ea
+          rw [hgt]
+          simp only [Rel.holds, decide_eq_true_eq, EV.min]
+        · simp at h
+      · rw [if_neg hn] at h; simp at h
+    · simp at h
+
+theorem ofExt_neg (L : S.Laws) (x : ExtQ) : S.ofExt x.neg = (S.ofExt x).map EV.neg := by
+  cases x <;> simp only [ExtQ.neg, Sem.ofExt, Option.map_none, Option.map_some, EV.neg]
+  rename_i q
+  simp only [Sem.arith, Rat.cast_neg, L.ok_neg, L.odd]
+  split_ifs <;> simp [EV.neg]
+
+theorem cast_abs_rat (q : Rat) : (((if q < 0 then -q else q : Rat)) : K) = |(q : K)| := by
+  split_ifs with h
+  · rw [abs_of_neg (by exact_mod_cast h)]; simp
+  · rw [abs_of_nonneg (by exact_mod_cast (not_lt.1 h))]
+
+theorem ok_abs (L : S.Laws) (z : K) : S.ok |z| = S.ok z := by
+  rcases le_total 0 z with h | h
+  · rw [abs_of_nonneg h]
+  · rw [abs_of_nonpos h, L.ok_neg]
+
+theorem ofExt_abs (L : S.Laws) (x : ExtQ) (hx : x ≠ .nan) : S.ofExt x.abs = (S.ofExt x).map EV.abs := by
+  cases x with
+  | nan => exact absurd rfl hx
+  | ninf => simp [ExtQ.abs, Sem.ofExt, EV.abs]
+  | pinf => simp [ExtQ.abs, Sem.ofExt, EV.abs]
+  | fin q =>
+    simp only [ExtQ.abs, Sem.ofExt, Sem.arith, cast_abs_rat, ok_abs L, L.rnd_abs]
+    split_ifs <;> simp [EV.abs]
+
+theorem rNegative_sound (H : Hyp S env cfg) {x e' : Expr} (h : rNegative cfg x = .ok (some e')) :
+    Sound S env (.un .negative x) e' := by
+  unfold rNegative at h
+  split at h
+  · rename_i v like
+    split_ifs at h with hn
+    · split at h
+      · -- complex constant: undefined
+        intro w hw
+        obtain ⟨a, ha, _⟩ := eval_un hw
+        simp [eval, Sem.const, CVal.ext?] at ha
+      · split at h
+        · rename_i p hp
+          simp only [bind_eq_ok, pure_eq_ok, Option.some.injEq] at h
+          obtain ⟨u1, h1, e2, he2, rfl⟩ := h
+          have h1 := failIf_ok h1
+          simp only [H.strict, Bool.true_and, bne_eq_false_iff_eq] at h1
+          intro w hw
+          obtain ⟨a, ha, hw⟩ := eval_un hw
+          simp only [eval] at ha
+          rw [const_pnum hp] at ha
+          rw [eval_mkConst H.strict he2, const_toCVal, h1, ofExt_neg H.L, ha]
+          simpa [Sem.un] using hw
+        · simp at h
+    · simp at h
+  · rename_i a
+    simp only [pure_eq_ok, Option.some.injEq] at h; subst h
+    exact neg_neg_sound a
+  · simp at h
+
+theorem rAbsolute_sound (H : Hyp S env cfg) {x e' : Expr} (h : rAbsolute cfg x = .ok (some e')) :
+    Sound S env (.un .absolute x) e' := by
+  unfold rAbsolute at h
+  split at h
+  · rename_i a
+    simp only [pure_eq_ok, Option.some.injEq] at h; subst h
+    exact abs_abs_sound a
+  · rename_i v like
+    split_ifs at h with hn
+    · split at h
+      · rename_i p hp
+        simp only [bind_eq_ok, pure_eq_ok, Option.some.injEq] at h
+        obtain ⟨u1, h1, e2, he2, rfl⟩ := h
+        have h1 := failIf_ok h1
+        simp only [H.strict, Bool.true_and, bne_eq_false_iff_eq] at h1
+        intro w hw
+        obtain ⟨a, ha, hw⟩ := eval_un hw
+        simp only [eval] at ha
+        rw [const_pnum hp] at ha
+        have hnan : p.ext ≠ .nan := by
+          intro hx; rw [hx] at ha; simp [Sem.ofExt] at ha
+        rw [eval_mkConst H.strict he2, const_toCVal, h1, ofExt_abs H.L _ hnan, ha]
+        simpa [Sem.un] using hw
+      · simp at h
+    · simp at h
+  · simp at h
+
+theorem rConstant_sound (H : Hyp S env cfg) {v : CVal} {like e' : Expr} (h : rConstant cfg v like = .ok (some e')) :
+    Sound S env (.const v like) e' := by
+  simp only [rConstant, bind_eq_ok] at h
+  obtain ⟨o, _, h⟩ := h
+  cases o with
+  | none => simp at h
+  | some nv =>
+    simp only [bind_eq_ok, pure_eq_ok, Option.some.injEq] at h
+    obtain ⟨u1, h1, e2, he2, rfl⟩ := h
+    have h1 := failIf_ok h1
+    simp only [H.strict, Bool.true_and, Bool.not_eq_false'] at h1
+    intro w hw
+    simp only [eval] at hw
+    rw [eval_mkConst H.strict he2, ← hw]
+    unfold constSame at h1
+    cases v with
+    | name s =>
+      simp only at h1
+      cases hwk : cfg.work with
+      | none => simp [hwk] at h1
+      | some t =>
+        simp only [hwk] at h1
+        cases hb : namedBits t s with
+        | none => simp [hb] at h1
+        | some b =>
+          simp only [hb, Option.map_some, beq_iff_eq, Option.some.injEq] at h1
+          subst h1
+          simp only [Sem.const]
+          rw [H.named t s b hwk hb]
+          simp [mkFlt, CVal.ext?]
+    | bool b =>
+      simp only [Bool.and_eq_true, beq_iff_eq, bne_iff_ne, ne_eq] at h1
+      exact const_real_eq h1.1.1.1 h1.1.1.2 h1.1.2
+    | int b =>
+      simp only [Bool.and_eq_true, beq_iff_eq, bne_iff_ne, ne_eq] at h1
+      exact const_real_eq h1.1.1.1 h1.1.1.2 h1.1.2
+    | flt t b =>
+      simp only [Bool.and_eq_true, beq_iff_eq, bne_iff_ne, ne_eq] at h1
+      exact const_real_eq h1.1.1.1 h1.1.1.2 h1.1.2
+    | cplx t a b => simp [CVal.isReal] at h1
+    | other d => simp [CVal.isReal] at h1
+
+theorem evalFn_sound (H : Hyp S env cfg) {isSqrt : Bool} {v : CVal} {like e' : Expr} {p : PNum}
+    (hp : v.pnum? = some p) (h : evalFn cfg isSqrt like p = .ok (some e')) :
+    Sound S env (.un (if isSqrt then .sqrt else .square) (.const v like)) e' := by
+  simp only [evalFn, bind_eq_ok] at h
+  obtain ⟨o, _, h⟩ := h
+  cases o with
+  | none => simp at h
+  | some rv =>
+    simp only [bind_eq_ok, pure_eq_ok, Option.some.injEq] at h
+    obtain ⟨u1, h1, u2, h2, e2, he2, rfl⟩ := h
+    have h2 := failIf_ok h2
+    simp only [H.strict, Bool.true_and, Bool.not_eq_false', Bool.and_eq_true] at h2
+    obtain ⟨hreal, hex⟩ := h2
+    intro w hw
+    obtain ⟨a, ha, hw⟩ := eval_un hw
+    simp only [eval] at ha
+    unfold evalExact at hex
+    split at hex
+    · rename_i q s hq hs
+      have hrep := guardRep_ok h1
+      obtain ⟨rfl, _⟩ := const_rep_val H (v := p.toCVal) hrep (toCVal_ext p).2 ((toCVal_ext p).1.trans (by rw [hq]))
+        (by rw [const_toCVal, ← const_pnum hp]; exact ha)
+      rw [eval_mkConst H.strict he2, const_of_ext hreal hs]
+      simp only [Sem.ofExt]
+      cases isSqrt
+      · simp only [Bool.false_eq_true, if_false, beq_iff_eq] at hex hw
+        subst hex
+        simp only [Sem.un] at hw
+        simpa using hw
+      · simp only [if_true, Bool.and_eq_true, beq_iff_eq, decide_eq_true_eq] at hex hw
+        obtain ⟨hsq, hs0⟩ := hex
+        simp only [Sem.un] at hw
+        have hq0 : (0 : K) ≤ (q : K) := by
+          rw [← hsq]; push_cast; exact mul_self_nonneg _
+        rw [if_pos hq0] at hw
+        have : S.sqrt (q : K) = (s : K) := by
+          rw [← hsq]; push_cast
+          exact H.L.sqrt_sq _ (by exact_mod_cast hs0)
+        rw [this] at hw
+        exact hw
+    · simp at hex
+
+theorem sqrt_zero' (L : S.Laws) : S.sqrt (0 : K) = 0 := by
+  have := L.sqrt_sq 0 le_rfl
+  simpa using this
+
+theorem sqrt_one' (L : S.Laws) : S.sqrt (1 : K) = 1 := by
+  have := L.sqrt_sq 1 zero_le_one
+  simpa using this
+
+theorem rSqrt_sound (H : Hyp S env cfg) {x e' : Expr} (h : rSqrt cfg x = .ok (some e')) :
+    Sound S env (.un .sqrt x) e' := by
+  unfold rSqrt at h
+  split at h
+  · rename_i v like
+    split_ifs at h with hn h01
+    · simp only [pure_eq_ok, Option.some.injEq] at h; subst h
+      intro w hw
+      obtain ⟨a, ha, hw⟩ := eval_un hw
+      simp only [Bool.or_eq_true] at h01
+      rcases h01 with h0 | h1
+      · have := eq0_sound H.L hn (by simpa [eval] using ha)
+        rw [h0] at this; simp only [ZeroFact] at this; subst this
+        simp only [Sem.un, le_refl, if_true, sqrt_zero' H.L] at hw
+        obtain ⟨_, rfl⟩ := arith_eq_some hw
+        rw [ha, H.L.rnd_zero]
+      · have := eq1_sound H.L hn h1 (by simpa [eval] using ha)
+        subst this
+        simp only [Sem.un, zero_le_one, if_true, sqrt_one' H.L] at hw
+        obtain ⟨_, rfl⟩ := arith_eq_some hw
+        rw [ha, H.L.rnd_one]
+    · split at h
+      · rename_i p hp
+        exact evalFn_sound (isSqrt := true) H hp h
+      · simp at h
+    · simp at h
+  · simp at h
+
+theorem rSquare_sound (H : Hyp S env cfg) {x e' : Expr} (h : rSquare cfg x = .ok (some e')) :
+    Sound S env (.un .square x) e' := by
+  unfold rSquare at h
+  split at h
+  · rename_i v like
+    split_ifs at h with hn
+    · split at h
+      · rename_i p hp
+        exact evalFn_sound (isSqrt := false) H hp h
+      · simp at h
+    · simp at h
+  · simp at h
+
+theorem const_int (L : S.Laws) (n : Int) : S.const (.int n) = S.arith ((n : Rat) : K) := by
+  simp [Sem.const, CVal.ext?, Sem.ofExt]
+
+theorem rSign_sound (H : Hyp S env cfg) {x e' : Expr} (h : rSign cfg x = .ok (some e')) :
+    Sound S env (.un .sign x) e' := by
+  unfold rSign at h
+  split at h
+  · rename_i v like
+    split at h
+    · rename_i t b
+      intro w hw
+      obtain ⟨a, ha, hw⟩ := eval_un hw
+      simp only [eval] at ha
+      rw [const_of_ext (x := extOfBits t.fmt b) (by simp [CVal.isReal]) rfl] at ha
+      simp only [Sem.un, Option.some.injEq] at hw
+      subst hw
+      have he0 : CVal.eq0 (.flt t b) = (extOfBits t.fmt b == ExtQ.fin 0) := by simp [CVal.eq0, extEqQ]
+      rw [he0] at h
+      generalize extOfBits t.fmt b = xx at ha h
+      cases xx <;> simp only [Sem.ofExt] at ha
+      · cases ha
+      · cases ha
+        have hb : (ExtQ.ninf == ExtQ.fin 0) = false := by simp
+        simp only [hb, Bool.false_eq_true, if_false, bind_eq_ok, pure_eq_ok, Option.some.injEq, ExtQ.lt] at h
+        obtain ⟨e2, he2, rfl⟩ := h
+        rw [eval_mkConst H.strict he2, const_int H.L]
+        simp only [Int.reduceNeg, Int.cast_neg, Int.cast_one, Rat.cast_neg, Rat.cast_one, Sem.arith, H.L.ok_neg, H.L.ok_one,
+          if_true, H.L.rnd_neg_one, EV.sign]
+      · rename_i q
+        obtain ⟨hok, rfl⟩ := arith_eq_some ha
+        by_cases hq : q = 0
+        · subst hq
+          simp only [beq_self_eq_true, if_true, bind_eq_ok, pure_eq_ok, Option.some.injEq] at h
+          obtain ⟨e2, he2, rfl⟩ := h
+          rw [eval_mkConst H.strict he2, const_int H.L]
+          simp [Sem.arith, H.L.ok_zero, H.L.rnd_zero, EV.sign]
+        · have hb : (ExtQ.fin q == ExtQ.fin 0) = false := by simp [hq]
+          simp only [hb, Bool.false_eq_true, if_false, bind_eq_ok, pure_eq_ok, Option.some.injEq, ExtQ.lt] at h
+          obtain ⟨e2, he2, rfl⟩ := h
+          rw [eval_mkConst H.strict he2, const_int H.L]
+          rcases lt_or_gt_of_ne hq with hneg | hpos
+          · have hK : (q : K) < 0 := by exact_mod_cast hneg
+            have hr := H.L.rnd_neg hok hK
+            have hn : ¬ (0 : Rat) < q := not_lt.2 (le_of_lt hneg)
+            simp only [hn, decide_false, Bool.false_eq_true, if_false, Int.reduceNeg, Int.cast_neg, Int.cast_one,
+              Rat.cast_neg, Rat.cast_one, Sem.arith, H.L.ok_neg, H.L.ok_one, if_true, H.L.rnd_neg_one, EV.sign,
+              ne_of_lt hr, not_lt.2 (le_of_lt hr)]
+          · have hK : (0 : K) < (q : K) := by exact_mod_cast hpos
+            have hr := H.L.rnd_pos hok hK
+            simp only [hpos, decide_true, if_true, Int.cast_one, Rat.cast_one, Sem.arith, H.L.ok_one, H.L.rnd_one, EV.sign,
+              ne_of_gt hr, hr, if_false]
+      · cases ha
+        have hb : (ExtQ.pinf == ExtQ.fin 0) = false := by simp
+        simp only [hb, Bool.false_eq_true, if_false, bind_eq_ok, pure_eq_ok, Option.some.injEq, ExtQ.lt] at h
+        obtain ⟨e2, he2, rfl⟩ := h
+        rw [eval_mkConst H.strict he2, const_int H.L]
+        simp [Sem.arith, H.L.ok_one, H.L.rnd_one, EV.sign]
+    · simp at h
+  · rename_i a
+    simp only [pure_eq_ok, Option.some.injEq] at h; subst h
+    exact sign_sign_sound a
+  · simp at h
+
+/-! ## `add`, `subtract`, `multiply` -/
+
+theorem rAdd_sound (H : Hyp S env cfg) {x y e' : Expr} (h : rAdd cfg x y = .ok (some e')) :
+    Sound S env (.bin .add x y) e' := by
+  simp only [rAdd, bind_eq_ok] at h
+  obtain ⟨o, ho, h⟩ := h
+  cases o with
+  | some r => simp only [pure_eq_ok, Option.some.injEq] at h; subst h; exact foldArith_sound (op := .add) H ho
+  | none =>
+    simp only at h
+    split_ifs at h with h1 h2 <;> simp only [pure_eq_ok, Option.some.injEq] at h
+    · subst h; exact add_zero_left_sound H h1
+    · subst h; exact add_zero_right_sound H h2
+    · cases h
+
+theorem rSubtract_sound (H : Hyp S env cfg) {x y e' : Expr} (h : rSubtract cfg x y = .ok (some e')) :
+    Sound S env (.bin .subtract x y) e' := by
+  simp only [rSubtract, bind_eq_ok] at h
+  obtain ⟨o, ho, h⟩ := h
+  cases o with
+  | some r => simp only [pure_eq_ok, Option.some.injEq] at h; subst h; exact foldArith_sound (op := .sub) H ho
+  | none =>
+    simp only at h
+    split_ifs at h with h1 h2 <;> simp only [pure_eq_ok, Option.some.injEq] at h
+    · subst h; exact sub_zero_left_sound H h1
+    · subst h; exact sub_zero_right_sound H h2
+    · cases h
+
+theorem rMultiply_sound (H : Hyp S env cfg) {x y e' : Expr} (h : rMultiply cfg x y = .ok (some e')) :
+    Sound S env (.bin .multiply x y) e' := by
+  simp only [rMultiply, bind_eq_ok] at h
+  obtain ⟨o, ho, h⟩ := h
+  cases o with
+  | some r => simp only [pure_eq_ok, Option.some.injEq] at h; subst h; exact foldArith_sound (op := .mul) H ho
+  | none =>
+    simp only at h
+    split_ifs at h with h1 h2 <;> simp only [pure_eq_ok, Option.some.injEq] at h
+    · subst h; exact mul_one_left_sound H h1
+    · subst h; exact mul_one_right_sound H h2
+    · cases h
+
+/-! ## comparisons -/
+
+theorem rowSound_keys {k1 k2 : Key} {row : Row} (h : rowSound ((k1, k2), row) = true) :
+    (∃ c, keyClasses k1 = some c) ∧ (∃ c, keyClasses k2 = some c) := by
+  simp only [rowSound] at h
+  split at h
+  · rename_i ci cj h1 h2; exact ⟨⟨ci, h1⟩, ⟨cj, h2⟩⟩
+  · cases h
+
+theorem ratKey_num {q : Rat} {k : Key} (h : ratKey q = some k) : ∃ n : Int, k = .num n ∧ q = (n : Rat) := by
+  unfold ratKey at h
+  split_ifs at h with hd
+  cases h
+  refine ⟨q.num, rfl, ?_⟩
+  have hd' : q.den = 1 := by simpa using hd
+  exact (Rat.den_eq_one_iff q).1 hd' |>.symm
+
+/-- a numeric constant equal (Python `==`) to the integer key `n` has the value `n` -/
+theorem keyOf_num {v : CVal} {n : Int} (hv : v.isReal = true) (h : keyOf v = some (.num n)) :
+    v.ext? = some (.fin (n : Rat)) := by
+  cases v <;> simp [CVal.isReal] at hv
+  case bool b => cases b <;> simp [keyOf] at h <;> subst h <;> simp [CVal.ext?]
+  case int m => simp [keyOf] at h; subst h; simp [CVal.ext?]
+  case flt t b =>
+    simp only [keyOf] at h
+    simp only [CVal.ext?]
+    generalize extOfBits t.fmt b = xx at h
+    cases xx <;> simp at h
+    rename_i q
+    obtain ⟨m, hm, rfl⟩ := ratKey_num h
+    cases hm; rfl
+
+theorem keyOf_real_num {v : CVal} {k : Key} (hv : v.isReal = true) (h : keyOf v = some k) : ∃ n, k = .num n := by
+  cases v <;> simp [CVal.isReal] at hv
+  case bool b => simp [keyOf] at h; exact ⟨_, h.symm⟩
+  case int m => simp [keyOf] at h; exact ⟨_, h.symm⟩
+  case flt t b =>
+    simp only [keyOf] at h
+    generalize extOfBits t.fmt b = xx at h
+    cases xx <;> simp at h
+    obtain ⟨m, hm, _⟩ := ratKey_num h
+    exact ⟨m, hm⟩
+
+theorem keyOf_inKey (H : Hyp S env cfg) {v : CVal} {k : Key} {a : EV K} (hk : keyOf v = some k)
+    (hc : ∃ c, keyClasses k = some c) (ha : S.const v = some a) : InKey H.nc k a := by
+  obtain ⟨c, hc⟩ := hc
+  cases k with
+  | num n =>
+    have hn : n = 0 ∨ n = 1 := by
+      simp only [keyClasses] at hc
+      by_cases h0 : n = 0
+      · exact Or.inl h0
+      · by_cases h1 : n = 1
+        · exact Or.inr h1
+        · simp [h0, h1] at hc
+    have hreal : v.isReal = true := by
+      cases v <;> simp [keyOf] at hk <;> simp [CVal.isReal]
+      -- complex constants are undefined
+      simp [Sem.const, CVal.ext?] at ha
+    have hx := keyOf_num hreal hk
+    rw [const_of_ext hreal hx] at ha
+    simp only [Sem.ofExt] at ha
+    obtain ⟨_, rfl⟩ := arith_eq_some ha
+    simp only [InKey]
+    rcases hn with rfl | rfl
+    · simp [H.L.rnd_zero]
+    · simp [H.L.rnd_one]
+  | name s =>
+    have hv : v = .name s := by
+      cases v with
+      | name s' => simp [keyOf] at hk; rw [hk]
+      | bool b => simp [keyOf] at hk
+      | int m => simp [keyOf] at hk
+      | flt t b =>
+        simp only [keyOf] at hk
+        generalize extOfBits t.fmt b = xx at hk
+        cases xx <;> simp at hk
+        obtain ⟨_, h', _⟩ := ratKey_num hk; cases h'
+      | cplx t re im => exfalso; simp [Sem.const, CVal.ext?] at ha
+      | other d => simp [keyOf] at hk
+    subst hv
+    simp only [Sem.const] at ha
+    simp only [keyClasses] at hc
+    simp only [InKey]
+    by_cases h1 : s = "positive"
+    · subst h1; rw [H.L.named_unknown _ (by decide)] at ha; cases ha
+    rw [if_neg h1] at hc ⊢
+    by_cases h2 : s = "nonnegative"
+    · subst h2; rw [H.L.named_unknown _ (by decide)] at ha; cases ha
+    rw [if_neg h2] at hc ⊢
+    by_cases h3 : s = "negative"
+    · subst h3; rw [H.L.named_unknown _ (by decide)] at ha; cases ha
+    rw [if_neg h3] at hc ⊢
+    by_cases h4 : s = "nonpositive"
+    · subst h4; rw [H.L.named_unknown _ (by decide)] at ha; cases ha
+    rw [if_neg h4] at hc ⊢
+    by_cases h5 : s = "finite"
+    · subst h5; rw [H.L.named_unknown _ (by decide)] at ha; cases ha
+    rw [if_neg h5] at hc ⊢
+    by_cases h6 : s = "neginf"
+    · subst h6; rw [if_pos rfl]; rw [H.L.named_neginf] at ha; exact (Option.some.inj ha).symm
+    rw [if_neg h6] at hc ⊢
+    by_cases h7 : s = "smallest_subnormal"
+    · subst h7; rw [if_pos rfl]; rw [H.hnc.1] at ha; exact (Option.some.inj ha).symm
+    rw [if_neg h7] at hc ⊢
+    by_cases h8 : s = "smallest"
+    · subst h8; rw [if_pos rfl]; rw [H.hnc.2.1] at ha; exact (Option.some.inj ha).symm
+    rw [if_neg h8] at hc ⊢
+    by_cases h9 : s = "eps"
+    · subst h9; rw [if_pos rfl]; rw [H.hnc.2.2.1] at ha; exact (Option.some.inj ha).symm
+    rw [if_neg h9] at hc ⊢
+    by_cases h10 : s = "largest"
+    · subst h10; rw [if_pos rfl]; rw [H.hnc.2.2.2] at ha; exact (Option.some.inj ha).symm
+    rw [if_neg h10] at hc ⊢
+    by_cases h11 : s = "posinf"
+    · subst h11; rw [if_pos rfl]; rw [H.L.named_posinf] at ha; exact (Option.some.inj ha).symm
+    rw [if_neg h11] at hc
+    cases hc
+
+theorem isProp_inKey (H : Hyp S env cfg) {p : Prop'} {e : Expr} {v : EV K} (hp : isProp p e = .ok (some true))
+    (hv : eval S env e = some v) : InKey H.nc (.name p.name) v := by
+  cases p <;> simp only [isProp] at hp <;> simp only [Prop'.name, InKey]
+  · have := isPos_sound H.L env hv hp
+    simpa [SignFact] using this
+  · have := isNeg_sound H.L env hv hp
+    simpa [SignFact] using this
+  · have := isNonpos_sound H.L env hv hp
+    simpa [SignFact] using this
+  · have := isNonneg_sound H.L env hv hp
+    simpa [SignFact] using this
+  · have := isFinite_sound H.L env _ _ _ hv hp
+    simpa [FinFact] using this
+
+theorem entry_some {t : Table} {k : Key × Key} {i : Nat} {b : Bool} (h : entry t k i = some b) :
+    ∃ row, (k, row) ∈ t ∧ (row[i]?).join = some b := by
+  unfold entry at h
+  split at h
+  · rename_i row hrow
+    exact ⟨row, lookup_mem hrow, h⟩
+  · cases h
+
+theorem scanConstAny_ok {vk : Option Key} {e : Expr} {i : Nat} {b : Bool} :
+    ∀ {ps : List Prop'}, scanConstAny cfg vk e i ps = .ok (some b) →
+      ∃ p k, vk = some k ∧ isProp p e = .ok (some true) ∧ entry cfg.T.ca (k, .name p.name) i = some b := by
+  intro ps
+  induction ps with
+  | nil => intro h; simp [scanConstAny] at h
+  | cons p ps ih =>
+    intro h
+    simp only [scanConstAny, bind_eq_ok] at h
+    obtain ⟨c, hc, h⟩ := h
+    cases c with
+    | false => simp only [Bool.false_eq_true, if_false] at h; exact ih h
+    | true =>
+      simp only [if_true] at h
+      cases vk with
+      | none => simp only at h; exact ih h
+      | some k =>
+        simp only at h
+        cases he : entry cfg.T.ca (k, .name p.name) i with
+        | none => rw [he] at h; simp only at h; exact ih h
+        | some b' =>
+          rw [he] at h
+          simp only [pure_eq_ok, Option.some.injEq] at h
+          subst h
+          exact ⟨p, k, rfl, tr_ok_true hc, he⟩
+
+theorem scanAnyAny_ok {x y : Expr} {i : Nat} {b : Bool} :
+    ∀ {ps : List (Prop' × Prop')}, scanAnyAny cfg x y i ps = .ok (some b) →
+      ∃ p q, isProp p x = .ok (some true) ∧ isProp q y = .ok (some true) ∧
+        entry cfg.T.aa (.name p.name, .name q.name) i = some b := by
+  intro ps
+  induction ps with
+  | nil => intro h; simp [scanAnyAny] at h
+  | cons pq ps ih =>
+    obtain ⟨p, q⟩ := pq
+    intro h
+    simp only [scanAnyAny, bind_eq_ok] at h
+    obtain ⟨c, hc, h⟩ := h
+    cases c with
+    | false => simp only [Bool.false_eq_true, if_false] at h; exact ih h
+    | true =>
+      simp only [if_true] at h
+      simp only [andM, bind_eq_ok] at hc
+      obtain ⟨c1, hc1, hc⟩ := hc
+      cases c1 with
+      | false => simp at hc
+      | true =>
+        simp only [if_true] at hc
+        cases he : entry cfg.T.aa (.name p.name, .name q.name) i with
+        | none => rw [he] at h; simp only at h; exact ih h
+        | some b' =>
+          rw [he] at h
+          simp only [pure_eq_ok, Option.some.injEq] at h
+          subst h
+          exact ⟨p, q, tr_ok_true hc1, tr_ok_true hc, he⟩
+
+/-- the column used when the constant is the right operand holds the swapped relation -/
+theorem swap_rel (r : Rel) : ∃ r' : Rel, r'.index = r.swapIndex ∧ ∀ a b : EV K, r.holds a b = r'.holds b a := by
+  cases r
+  · exact ⟨.le, rfl, fun a b => rfl⟩
+  · exact ⟨.lt, rfl, fun a b => rfl⟩
+  · exact ⟨.ge, rfl, fun a b => rfl⟩
+  · exact ⟨.gt, rfl, fun a b => rfl⟩
+  · exact ⟨.eq, rfl, fun a b => by simp [Rel.holds, eq_comm]⟩
+  · exact ⟨.ne, rfl, fun a b => by simp [Rel.holds, eq_comm]⟩
+
+theorem compareFold_sound (H : Hyp S env cfg) {r : Rel} {x y : Expr} {b : Bool} {va vb : EV K}
+    (h : compareFold cfg r x y = .ok (some b)) (hx : eval S env x = some va) (hy : eval S env y = some vb) :
+    r.holds va vb = b := by
+  unfold compareFold at h
+  split at h
+  · -- constant against constant
+    rename_i xv xl yv yl
+    simp only [eval] at hx hy
+    simp only [bind_eq_ok] at h
+    obtain ⟨o, ho, h⟩ := h
+    cases o with
+    | some b' =>
+      simp only [pure_eq_ok, Option.some.injEq] at h
+      subst h
+      -- via the table
+      split at ho
+      · rename_i kx ky hkx hky
+        split at ho
+        · rename_i row hrow
+          split at ho
+          · rename_i b'' hb''
+            simp only [pure_eq_ok, Option.some.injEq] at ho
+            subst ho
+            have hmem := lookup_mem hrow
+            have hs := H.tcc _ hmem
+            obtain ⟨c1, c2⟩ := rowSound_keys hs
+            exact rowSound_correct H.nc hs hb'' (keyOf_inKey H hkx c1 hx) (keyOf_inKey H hky c2 hy)
+          · simp at ho
+        · simp at ho
+      · simp at ho
+    | none =>
+      simp only at h
+      split_ifs at h with hn
+      · split at h
+        · rename_i a c ha hc
+          simp only [bind_eq_ok, pure_eq_ok, Option.some.injEq] at h
+          obtain ⟨res, _, u1, h1, u2, h2, u3, h3, u4, h4, rfl⟩ := h
+          have h4 := failIf_ok h4
+          simp only [H.strict, Bool.true_and, bne_eq_false_iff_eq] at h4
+          rw [h4]
+          exact (extK_rel r (const_extK H ha (guardRep_ok h1) hx) (const_extK H hc (guardRep_ok h2) hy)).symm
+        · simp at h
+      · simp at h
+  · -- constant against any
+    rename_i xv xl hny
+    simp only [eval] at hx
+    split_ifs at h with hn
+    · obtain ⟨p, k, hk, hp, he⟩ := scanConstAny_ok h
+      obtain ⟨row, hmem, hrow⟩ := entry_some he
+      have hreal : xv.isReal = true ∨ ∃ t re im, xv = .cplx t re im := by
+        cases xv <;> simp [CVal.isNumber] at hn <;> simp [CVal.isReal]
+      rcases hreal with hreal | ⟨t, re, im, rfl⟩
+      · obtain ⟨n, rfl⟩ := keyOf_real_num hreal hk
+        have hs := H.tca _ hmem ⟨n, rfl⟩
+        obtain ⟨c1, c2⟩ := rowSound_keys hs
+        exact rowSound_correct H.nc hs hrow (keyOf_inKey H hk c1 hx) (isProp_inKey H hp hy)
+      · simp [Sem.const, CVal.ext?] at hx
+    · simp at h
+  · -- any against constant
+    rename_i yv yl hnx
+    simp only [eval] at hy
+    split_ifs at h with hn
+    · obtain ⟨p, k, hk, hp, he⟩ := scanConstAny_ok h
+      obtain ⟨row, hmem, hrow⟩ := entry_some he
+      obtain ⟨r', hr', hsw⟩ := swap_rel (K := K) r
+      rw [← hr'] at hrow
+      have hreal : yv.isReal = true ∨ ∃ t re im, yv = .cplx t re im := by
+        cases yv <;> simp [CVal.isNumber] at hn <;> simp [CVal.isReal]
+      rcases hreal with hreal | ⟨t, re, im, rfl⟩
+      · obtain ⟨n, rfl⟩ := keyOf_real_num hreal hk
+        have hs := H.tca _ hmem ⟨n, rfl⟩
+        obtain ⟨c1, c2⟩ := rowSound_keys hs
+        rw [hsw]
+        exact rowSound_correct H.nc hs hrow (keyOf_inKey H hk c1 hy) (isProp_inKey H hp hx)
+      · simp [Sem.const, CVal.ext?] at hy
+    · simp at h
+  · -- any against any
+    obtain ⟨p, q, hp, hq, he⟩ := scanAnyAny_ok h
+    obtain ⟨row, hmem, hrow⟩ := entry_some he
+    have hs := H.taa _ hmem
+    exact rowSound_correct H.nc hs hrow (isProp_inKey H hp hx) (isProp_inKey H hq hy)
+
+theorem eval_rel {r : Rel} {x y : Expr} {v : EV K} (h : eval S env (.bin r.kind x y) = some v) :
+    ∃ a b, eval S env x = some a ∧ eval S env y = some b ∧ v = EV.ofBool (r.holds a b) := by
+  obtain ⟨a, b, ha, hb, hv⟩ := eval_bin h
+  rw [bin_rel] at hv
+  exact ⟨a, b, ha, hb, (Option.some.inj hv).symm⟩
+
+theorem eval_rel_of (r : Rel) {x y : Expr} {a b : EV K} (ha : eval S env x = some a) (hb : eval S env y = some b) :
+    eval S env (.bin r.kind x y) = some (EV.ofBool (r.holds a b)) := by
+  rw [eval_bin_of ha hb, bin_rel]
+
+theorem holds_refl (r : Rel) (a : EV K) : r.holds a a = r.refl := by
+  cases r <;> simp [Rel.holds, Rel.refl, EV.le]
+
+theorem distribute_sound (H : Hyp S env cfg) {r : Rel} {flip : Bool} {cond a b other e' : Expr} {cb : Bool} {va vb vo : EV K}
+    (h : distribute cfg r flip cond a b other = .ok e')
+    (hc : eval S env cond = some (EV.ofBool cb)) (ha : eval S env a = some va) (hb : eval S env b = some vb)
+    (ho : eval S env other = some vo) :
+    eval S env e' = some (EV.ofBool (if flip then r.holds vo (if cb then va else vb) else r.holds (if cb then va else vb) vo)) := by
+  simp only [distribute, bind_eq_ok, pure_eq_ok] at h
+  obtain ⟨nc, hnc, l, hl, rr, hrr, rfl⟩ := h
+  have hnc' := tryNot_eval H hnc hc
+  cases flip
+  · simp only [Bool.false_eq_true, if_false] at hl hrr ⊢
+    have h1 := tryAnd_eval H hl hc (eval_rel_of r ha ho)
+    have h2 := tryAnd_eval H hrr hnc' (eval_rel_of r hb ho)
+    rw [eval_or_of h1 h2]
+    cases cb <;> simp
+  · simp only [if_true] at hl hrr ⊢
+    have h1 := tryAnd_eval H hl hc (eval_rel_of r ho ha)
+    have h2 := tryAnd_eval H hrr hnc' (eval_rel_of r ho hb)
+    rw [eval_or_of h1 h2]
+    cases cb <;> simp
+
+theorem holds_comm_eq (a b : EV K) : Rel.eq.holds a b = Rel.eq.holds b a := by simp [Rel.holds, eq_comm]
+theorem holds_comm_ne (a b : EV K) : Rel.ne.holds a b = Rel.ne.holds b a := by simp [Rel.holds, eq_comm]
+
+theorem rCompare_sound (H : Hyp S env cfg) {r : Rel} {x y e' : Expr} (h : rCompare cfg r x y = .ok (some e')) :
+    Sound S env (.bin r.kind x y) e' := by
+  intro v hv
+  obtain ⟨a, b, ha, hb, rfl⟩ := eval_rel hv
+  obtain ⟨m, hm, h⟩ := firstSome_ok h
+  simp only [List.mem_cons, List.mem_singleton, List.not_mem_nil, or_false] at hm
+  rcases hm with rfl | rfl | rfl | rfl | rfl
+  · simp only [bind_eq_ok, pure_eq_ok, Option.map_eq_some_iff] at h
+    obtain ⟨o, ho, c, rfl, rfl⟩ := h
+    rw [eval_boolConst H.L, compareFold_sound H ho ha hb]
+  · simp only [pure_eq_ok] at h
+    split_ifs at h with he
+    cases h
+    have : x = y := by simpa using he
+    subst this
+    rw [ha] at hb; cases hb
+    rw [eval_boolConst H.L, holds_refl]
+  · split at h
+    · rename_i cond p q _
+      simp only [bind_eq_ok, pure_eq_ok, Option.some.injEq] at h
+      obtain ⟨e2, he2, rfl⟩ := h
+      obtain ⟨vc, va, vb, cb, hc, hp, hq, hcb, rfl⟩ := eval_select ha
+      have hc' : eval S env cond = some (EV.ofBool cb) := by rw [hc, EV.toBool_eq hcb]
+      have := distribute_sound H he2 hc' hp hq hb
+      simpa using this
+    · simp at h
+  · split at h
+    · rename_i cond p q _
+      simp only [bind_eq_ok, pure_eq_ok, Option.some.injEq] at h
+      obtain ⟨e2, he2, rfl⟩ := h
+      obtain ⟨vc, va, vb, cb, hc, hp, hq, hcb, rfl⟩ := eval_select hb
+      have hc' : eval S env cond = some (EV.ofBool cb) := by rw [hc, EV.toBool_eq hcb]
+      have := distribute_sound H he2 hc' hp hq ha
+      simpa using this
+    · simp at h
+  · cases r <;> simp only [pure_eq_ok] at h <;> try (cases h)
+    all_goals
+      simp only [bind_eq_ok] at h
+      obtain ⟨c, _, h⟩ := h
+      cases c <;> simp only [Bool.false_eq_true, if_false, if_true, pure_eq_ok, Option.some.injEq] at h <;> try (cases h)
+    · rw [eval_rel_of .eq hb ha, holds_comm_eq]
+    · rw [eval_rel_of .ne hb ha, holds_comm_ne]
+
+/-! ## `select` -/
+
+theorem selectInner_sound (H : Hyp S env cfg) {cond x y e' : Expr} {cb : Bool} {vx vy : EV K}
+    (h : selectInner cfg cond x y = .ok (some e'))
+    (hc : eval S env cond = some (EV.ofBool cb)) (hx : eval S env x = some vx) (hy : eval S env y = some vy) :
+    eval S env e' = some (if cb then vx else vy) := by
+  unfold selectInner at h
+  split at h
+  · rename_i cond1 a b
+    obtain ⟨vc1, va, vb, cb1, hc1, ha, hb, hcb1, rfl⟩ := eval_select hx
+    have hc1' : eval S env cond1 = some (EV.ofBool cb1) := by rw [hc1, EV.toBool_eq hcb1]
+    split_ifs at h with h1 h2
+    · simp only [pure_eq_ok, Option.some.injEq] at h; subst h
+      have : b = y := by simpa using h1
+      subst this
+      rw [hb] at hy; cases hy
+      rw [eval_select_of (eval_and_of hc hc1') ha hb]
+      cases cb <;> cases cb1 <;> simp
+    · simp only [bind_eq_ok, pure_eq_ok, Option.some.injEq] at h
+      obtain ⟨n1, hn1, c, hcc, rfl⟩ := h
+      have : a = y := by simpa using h2
+      subst this
+      rw [ha] at hy; cases hy
+      have hn := tryNot_eval H hn1 hc1'
+      have hcv := tryAnd_eval H hcc hc hn
+      rw [eval_select_of hcv hb ha]
+      cases cb <;> cases cb1 <;> simp
+    · simp at h
+  · simp at h
+
+theorem selectNested_sound (H : Hyp S env cfg) {cond x y e' : Expr} {cb : Bool} {vx vy : EV K}
+    (h : selectNested cfg cond x y = .ok (some e'))
+    (hc : eval S env cond = some (EV.ofBool cb)) (hx : eval S env x = some vx) (hy : eval S env y = some vy) :
+    eval S env e' = some (if cb then vx else vy) := by
+  unfold selectNested at h
+  split at h
+  · simp only [bind_eq_ok] at h
+    obtain ⟨nc, hnc, h⟩ := h
+    have := selectInner_sound H h (tryNot_eval H hnc hc) hy hx
+    rw [this]; cases cb <;> simp
+  · exact selectInner_sound H h hc hx hy
+
+theorem rSelect_sound (H : Hyp S env cfg) {cond x y e' : Expr} (h : rSelect cfg cond x y = .ok (some e')) :
+    Sound S env (.select cond x y) e' := by
+  intro v hv
+  obtain ⟨vc, vx, vy, cb, hc, hx, hy, hcb, rfl⟩ := eval_select hv
+  have hc' : eval S env cond = some (EV.ofBool cb) := by rw [hc, EV.toBool_eq hcb]
+  unfold rSelect at h
+  split at h
+  · rename_i b hb
+    simp only [pure_eq_ok, Option.some.injEq] at h; subst h
+    have := constBool_eval (env := env) H.L hb
+    rw [hc'] at this
+    have := ofBool_inj (Option.some.inj this); subst this
+    cases cb <;> simp [hx, hy]
+  · split_ifs at h with hxy
+    · simp only [pure_eq_ok, Option.some.injEq] at h; subst h
+      have : x = y := by simpa using hxy
+      subst this
+      rw [hx] at hy; cases hy
+      rw [hx]; cases cb <;> simp
+    · split at h
+      · rename_i p q _
+        split_ifs at h with he
+        · simp only [pure_eq_ok, Option.some.injEq] at h; subst h
+          simp only [Bool.and_eq_true, beq_iff_eq] at he
+          obtain ⟨rfl, rfl⟩ := he
+          obtain ⟨a, b, ha, hb, hvv⟩ := eval_rel (r := .eq) hc'
+          rw [hx] at ha; rw [hy] at hb; cases ha; cases hb
+          have := ofBool_inj hvv
+          rw [hy]
+          cases cb
+          · simp
+          · have : vx = vy := by simpa [Rel.holds] using this.symm
+            simp [this]
+        · exact selectNested_sound H h hc' hx hy
+      · rename_i p q _
+        split_ifs at h with he
+        · simp only [pure_eq_ok, Option.some.injEq] at h; subst h
+          simp only [Bool.and_eq_true, beq_iff_eq] at he
+          obtain ⟨rfl, rfl⟩ := he
+          obtain ⟨a, b, ha, hb, hvv⟩ := eval_rel (r := .ne) hc'
+          rw [hx] at ha; rw [hy] at hb; cases ha; cases hb
+          have := ofBool_inj hvv
+          rw [hx]
+          cases cb
+          · have : vx = vy := by simpa [Rel.holds] using this.symm
+            simp [this]
+          · simp
+        · simp only [pure_eq_ok, Option.some.injEq] at h; subst h
+          obtain ⟨a, b, ha, hb, hvv⟩ := eval_rel (r := .ne) hc'
+          have := ofBool_inj hvv
+          have e1 : eval S env (Expr.bin K2.eq p q) = some (EV.ofBool (Rel.eq.holds a b)) := eval_rel_of .eq ha hb
+          rw [eval_select_of e1 hy hx]
+          rw [← holds_not_ne, ← this]
+          cases cb <;> simp
+      · rename_i p q _
+        simp only [pure_eq_ok, Option.some.injEq] at h; subst h
+        obtain ⟨a, b, ha, hb, hvv⟩ := eval_rel (r := .ge) hc'
+        have := ofBool_inj hvv
+        have e1 : eval S env (Expr.bin K2.lt p q) = some (EV.ofBool (Rel.lt.holds a b)) := eval_rel_of .lt ha hb
+        rw [eval_select_of e1 hy hx]
+        rw [← holds_not_ge, ← this]
+        cases cb <;> simp
+      · rename_i p q _
+        simp only [pure_eq_ok, Option.some.injEq] at h; subst h
+        obtain ⟨a, b, ha, hb, hvv⟩ := eval_rel (r := .gt) hc'
+        have := ofBool_inj hvv
+        have e1 : eval S env (Expr.bin K2.le p q) = some (EV.ofBool (Rel.le.holds a b)) := eval_rel_of .le ha hb
+        rw [eval_select_of e1 hy hx]
+        rw [← holds_not_gt, ← this]
+        cases cb <;> simp
+      · exact selectNested_sound H h hc' hx hy
+
+/-! ## the dispatcher, the per-node loop and the traversal -/
+
+theorem undefined_sound {e e' : Expr} (h : eval S env e = none) : Sound S env e e' := by
+  intro v hv; rw [h] at hv; cases hv
+
+theorem rule_sound (H : Hyp S env cfg) {e e' : Expr} (h : rule cfg e = .ok (some e')) : Sound S env e e' := by
+  cases e with
+  | sym n t => simp [rule] at h
+  | const v l => exact rConstant_sound H h
+  | select c x y => exact rSelect_sound H h
+  | un k x =>
+    cases k <;> simp only [rule] at h
+    case negative => exact rNegative_sound H h
+    case absolute => exact rAbsolute_sound H h
+    case sqrt => exact rSqrt_sound H h
+    case square => exact rSquare_sound H h
+    case sign => exact rSign_sound H h
+    case logical_not => exact rLogicalNot_sound H h
+    case upcast => exact rUpcast_sound H h
+    case downcast => exact rDowncast_sound H h
+    case conjugate => exact undefined_sound (by simp [eval, Sem.un])
+    case real => exact undefined_sound (by simp [eval, Sem.un])
+    case imag => exact undefined_sound (by simp [eval, Sem.un])
+    case log => exact rLog_sound H (Or.inl rfl) h
+    case log10 => exact rLog_sound H (Or.inr (Or.inl rfl)) h
+    case log2 => exact rLog_sound H (Or.inr (Or.inr rfl)) h
+    case log1p => exact rLog1p_sound H h
+    all_goals simp at h
+  | bin k x y =>
+    cases k <;> simp only [rule] at h
+    case add => exact rAdd_sound H h
+    case subtract => exact rSubtract_sound H h
+    case multiply => exact rMultiply_sound H h
+    case divide => exact rDivide_sound H h
+    case minimum => exact foldMinMax_sound (isMin := true) H h
+    case maximum => exact foldMinMax_sound (isMin := false) H h
+    case logical_and => exact rLogicalAnd_sound H h
+    case logical_or => exact rLogicalOr_sound H h
+    case ge => exact rCompare_sound (r := .ge) H h
+    case gt => exact rCompare_sound (r := .gt) H h
+    case le => exact rCompare_sound (r := .le) H h
+    case lt => exact rCompare_sound (r := .lt) H h
+    case eq => exact rCompare_sound (r := .eq) H h
+    case ne => exact rCompare_sound (r := .ne) H h
+    all_goals simp at h
+
+theorem tryRewrite_sound (H : Hyp S env cfg) {e e' : Expr} (h : tryRewrite cfg e = .ok e') : Sound S env e e' := by
+  simp only [tryRewrite, bind_eq_ok] at h
+  obtain ⟨o, ho, h⟩ := h
+  cases o with
+  | some n => simp only [pure_eq_ok] at h; subst h; exact rule_sound H ho
+  | none => simp only [pure_eq_ok] at h; subst h; exact Sound.refl _
+
+theorem call_sound (H : Hyp S env cfg) {e e' : Expr} (h : call cfg e = .ok (some e')) : Sound S env e e' := by
+  simp only [call, bind_eq_ok] at h
+  obtain ⟨o, ho, h⟩ := h
+  cases o with
+  | some r =>
+    simp only [bind_eq_ok, pure_eq_ok, Option.some.injEq] at h
+    obtain ⟨e2, he2, rfl⟩ := h
+    exact (rule_sound H ho).trans (tryRewrite_sound H he2)
+  | none => simp at h
+
+theorem rewriteLoop_sound (H : Hyp S env cfg) :
+    ∀ (fuel : Nat) (cur : Expr) (last : Option Expr) (e0 e' : Expr), Sound S env e0 cur →
+      (∀ l, last = some l → Sound S env e0 l) →
+      rewriteLoop cfg fuel cur last = .ok (some e') → Sound S env e0 e' := by
+  intro fuel
+  induction fuel with
+  | zero => intro cur last e0 e' _ _ h; simp [rewriteLoop] at h
+  | succ n ih =>
+    intro cur last e0 e' hcur hlast h
+    simp only [rewriteLoop, bind_eq_ok] at h
+    obtain ⟨o, ho, h⟩ := h
+    cases o with
+    | some r =>
+      simp only at h
+      have hr := hcur.trans (call_sound H ho)
+      exact ih r (some r) e0 e' hr (fun l hl => by cases hl; exact hr) h
+    | none =>
+      simp only [pure_eq_ok] at h
+      exact hlast _ h
+
+theorem modifier_sound (H : Hyp S env cfg) {fuel : Nat} {e e' : Expr} (h : modifier cfg fuel e = .ok e') :
+    Sound S env e e' := by
+  simp only [modifier, bind_eq_ok] at h
+  obtain ⟨o, ho, h⟩ := h
+  cases o with
+  | some r =>
+    simp only [pure_eq_ok] at h; subst h
+    exact rewriteLoop_sound H fuel e none e r (Sound.refl _) (fun l hl => by cases hl) ho
+  | none => simp only [pure_eq_ok] at h; subst h; exact Sound.refl _
+
+theorem sound_un {k : K1} {x x' : Expr} (h : Sound S env x x') : Sound S env (.un k x) (.un k x') := by
+  intro v hv
+  obtain ⟨a, ha, hv⟩ := eval_un hv
+  rw [eval_un_of (h a ha)]; exact hv
+
+theorem sound_bin {k : K2} {x x' y y' : Expr} (hx : Sound S env x x') (hy : Sound S env y y') :
+    Sound S env (.bin k x y) (.bin k x' y') := by
+  intro v hv
+  obtain ⟨a, b, ha, hb, hv⟩ := eval_bin hv
+  rw [eval_bin_of (hx a ha) (hy b hb)]; exact hv
+
+theorem sound_select {c c' x x' y y' : Expr} (hc : Sound S env c c') (hx : Sound S env x x') (hy : Sound S env y y') :
+    Sound S env (.select c x y) (.select c' x' y') := by
+  intro v hv
+  obtain ⟨vc, a, b, cb, hcc, ha, hb, hcb, rfl⟩ := eval_select hv
+  simp [eval, hc vc hcc, hx a ha, hy b hb, hcb]
+
+/-- **soundness of the whole rewriting pass** (`Expr.rewrite(rewrite)`, bottom-up, per-node fixpoint) -/
+theorem rewriteDeep_sound (H : Hyp S env cfg) (fuel : Nat) :
+    ∀ (e e' : Expr), rewriteDeep cfg fuel e = .ok e' → Sound S env e e' := by
+  intro e
+  induction e with
+  | sym n t => intro e' h; exact modifier_sound H (by simpa [rewriteDeep] using h)
+  | const v l ih =>
+    intro e' h
+    simp only [rewriteDeep, bind_eq_ok] at h
+    obtain ⟨l', _, h⟩ := h
+    by_cases hl : (l' == l) = true
+    · simp only [hl, if_true, bind_eq_ok, pure_eq_ok] at h
+      obtain ⟨e2, he2, h⟩ := h
+      subst he2
+      exact modifier_sound H h
+    · simp only [hl, Bool.false_eq_true, if_false, bind_eq_ok] at h
+      obtain ⟨e2, he2, h⟩ := h
+      refine Sound.trans ?_ (modifier_sound H h)
+      intro w hw
+      rw [eval_mkConst H.strict he2]; simpa [eval] using hw
+  | un k x ih =>
+    intro e' h
+    simp only [rewriteDeep, bind_eq_ok] at h
+    obtain ⟨x', hx', h⟩ := h
+    exact (sound_un (ih x' hx')).trans (modifier_sound H h)
+  | bin k x y ihx ihy =>
+    intro e' h
+    simp only [rewriteDeep, bind_eq_ok] at h
+    obtain ⟨x', hx', y', hy', h⟩ := h
+    exact (sound_bin (ihx x' hx') (ihy y' hy')).trans (modifier_sound H h)
+  | select c x y ihc ihx ihy =>
+    intro e' h
+    simp only [rewriteDeep, bind_eq_ok] at h
+    obtain ⟨c', hc', x', hx', y', hy', h⟩ := h
+    exact (sound_select (ihc c' hc') (ihx x' hx') (ihy y' hy')).trans (modifier_sound H h)
 
 end FAVerif.Rewriter
